@@ -53,7 +53,7 @@ def run_remote(scn: dict, remote_sims: Optional[List[str]] = None, max_sleep: fl
     cfg["remote_sims"] = remote_sims if remote_sims is not None else [s["sid"] for s in scn["sims"]]
     cfg["remote_max_sleep"] = max_sleep
     cfg["sleep_seed"] = sleep_seed
-    cfg.setdefault("mosaik_config", {"start_timeout": 20, "stop_timeout": 5})
+    cfg.setdefault("mosaik_config", {"start_timeout": 90, "stop_timeout": 5})
     trace: Dict[str, Any] = {"outcome": None}
     world = None
     t0 = _time.time()
